@@ -53,11 +53,11 @@ class P(core.Prop):
     shard = 150
     design_ref = '5/C10'
     rule = ('a real TorConfig bootstrapped over a real TorControlProtocol from a scripted Tor (table of 4-9 options '
-            'covering every declared type incl. a *PortLines group, initial values set/unset, config/defaults '
+            'covering every declared type incl. a *PortLines group (unset / auto / one / many lines, __<X> defaults), initial values set/unset, config/defaults '
             'present or not); then 1-24 operations: assignments (valid and invalid values per type, names in random '
             'case), in-place list operations on what a read returns (append/extend/insert/remove/pop/setitem, valid '
             'and invalid indices), saves answered 250 or 5xx, reads, needs_save(); 65% of the histories are steered '
-            'clear of the three open finding classes, the rest are unconstrained; a boundary stream adds double '
+            'clear of the two open finding classes, the rest are unconstrained; a boundary stream adds double '
             'saves, reject-then-accept, many options pending at once and quoting-heavy values. '
             'non-trivial = at least one save that wrote a SETCONF and at least 3 operations; distinct = distinct case')
     trusted = ["Twisted's StringTransport; harness/cfgworld.py (scripted Tor: PROTOCOLINFO/AUTHENTICATE/GETINFO/"
@@ -83,14 +83,13 @@ class P(core.Prop):
 
     def kind(self, case, obs):
         f = finding_flags(case)
-        tag = 'clean' if not any(f) else '+'.join(n for n, x in zip(('F1', 'F2', 'F3'), f) if x)
+        tag = 'clean' if not any(f) else '+'.join(n for n, x in zip(('F1', 'F3'), f) if x)
         rej = any(o[0] == 'save' and o[1] is not None for o in case['ops'])
         return '%s/%s' % (tag, 'reject' if rej else 'accept-only')
 
     finding_preds = {
         'emptied_list_saved': lambda c, o: finding_flags(c)[0],
-        'failed_listop_marks_pending': lambda c, o: finding_flags(c)[1],
-        'edit_while_detached': lambda c, o: finding_flags(c)[2],
+        'edit_while_detached': lambda c, o: finding_flags(c)[1],
     }
 
     # ------------------------------------------------------------------ generation
@@ -113,8 +112,21 @@ class P(core.Prop):
         for cn, k in options([tuple(r) for r in table]):
             port = any(t == 'Virtual' and n == cn + 'Lines' for n, t in table)
             if port:
-                # a *PortLines group: keep the bootstrap on its well-behaved path (one value, set)
-                store[cn] = [rng.choice(['9050', '9150 IsolateDestAddr', '127.0.0.1:9999', 'unix:/run/tor/socks'])]
+                # a *PortLines group: unset / "auto" / one line / several lines; defaults from config/defaults or __<X>
+                lines = ['9050', '9150 IsolateDestAddr', '127.0.0.1:9999', 'unix:/run/tor/socks', '0', '9051 IPv6Traffic']
+                r = rng.random()
+                if r < 0.45:
+                    store[cn] = [rng.choice(lines)]
+                elif r < 0.65:
+                    store[cn] = rng.sample(lines, rng.choice([2, 3]))
+                elif r < 0.75:
+                    store[cn] = ['auto']
+                r = rng.random()
+                if defaults is not None and r < 0.35:
+                    for e in rng.sample(lines, rng.choice([1, 1, 2])):
+                        defaults.append([cn, e])
+                elif r < 0.6:
+                    store['__' + cn] = rng.sample(lines, rng.choice([1, 1, 2]))
                 continue
             if k == 'KBool':
                 store[cn] = [rng.choice(['0', '1'])]
@@ -135,7 +147,7 @@ class P(core.Prop):
                 if r < 0.6:
                     store[cn] = [rng.choice([',', ', ']).join(rng.sample(COMMA_ELEMS, rng.randrange(1, 4)))]
                 elif defaults is not None and r < 0.8:
-                    defaults.append([cn, rng.choice(COMMA_ELEMS)])   # one element: splitting defaults is C11's business
+                    defaults.append([cn, rng.choice([',', ', ']).join(rng.sample(COMMA_ELEMS, rng.choice([1, 1, 2, 3])))])
             elif k in ('KLine', 'KPorts'):
                 r = rng.random()
                 if r < 0.6:
